@@ -804,3 +804,5 @@ for _n in range(1, 7):
     B("C13", _n)
 for _n in range(1, 7):
     B("C15", _n)
+for _n in range(1, 7):
+    B("C17", _n)
